@@ -643,6 +643,7 @@ def aliases_of_imported_functions():
     refused("np is not numpy", "def f(x):\n    return np.exp(x)\n", spec, "f", "np", header="import math as np\nfrom typhon import constants\n\n")
     refused("constants is not typhon.constants", "def f(x):\n    return x * constants.boltzmann\n", spec, "f", "constants",
             header="import numpy as np\nfrom scipy import constants\n\n")
+    refused("np rebound inside the function", "import math\n\n\ndef f(x):\n    np = math\n    return np.exp(x)\n", spec, "f", "local named np")
     refused("alias bound twice", "_exp = np.exp\n_exp = max\n\n\ndef f(x):\n    return _exp(x)\n", spec, "f", "_exp")
     refused("alias rebound through global", "_exp = np.exp\n\n\ndef k():\n    global _exp\n    _exp = np.log\n\n\ndef f(x):\n    return _exp(x)\n", spec, "f", "_exp")
     refused("alias shadowed by a local", "_exp = np.exp\n\n\ndef f(x):\n    _exp = x\n    return _exp(x)\n", spec, "f", "")
